@@ -546,7 +546,10 @@ fn run_driver(d: &Value, out: &mut impl Write, workdir: &str) -> bool {
         .collect();
       drop(st);
       if own_clones {
-        writeln!(out, "{}", json!({"ev": "stuck", "gone": true, "live": [], "obs": {"fl": [], "fltrunc": false}, "mem": [], "x": {"kind": kind, "threads": th}})).unwrap();
+        // a thread that is stuck has not given up its arena value: observe through it
+        let alive = (0..nthreads).find(|t| th.iter().any(|x| x["t"] == json!(*t)));
+        let a2: &'static sync::Arena = unsafe { &*(thread_arenas[alive.unwrap_or(0)] as *const sync::Arena) };
+        writeln!(out, "{}", end_event(a2, "stuck", json!({"kind": kind, "threads": th}))).unwrap();
       } else {
         writeln!(out, "{}", end_event(arena, "stuck", json!({"kind": kind, "threads": th}))).unwrap();
       }
